@@ -401,7 +401,7 @@ func (c *regexpSimplifyChecker) canCombine(x, y syntax.Expr) (threshold int, ok 
 }
 
 func (c *regexpSimplifyChecker) concatLiteral(e syntax.Expr) string {
-	if e.Op == syntax.OpConcat && c.allChars(e) {
+	if e.Op == syntax.OpConcat && len(e.Args) != 0 && c.allChars(e) {
 		return e.Value
 	}
 	return ""
